@@ -25,10 +25,13 @@ def _c31_nontrivial(recs):
 
 PROP = dict(
     specdir="origin", engine="c31",
-    mc=[dict(module="WriteBack", cfg="MC_WriteBack.cfg", allow_dead=("FSxNext",)),
-        dict(module="WriteBack", cfg="MC_WriteBack_ns2.cfg", allow_dead=("HPatch", "Transfer", "Refresh", "Restart")),
-        dict(module="WriteBack", cfg="MC_WriteBack_thorough.cfg", tiers=("thorough",), timeout=1500, allow_dead=("FSxNext",)),
-        dict(module="WriteBack", cfg="MC_WriteBack_live.cfg", tiers=("thorough",), timeout=900, coverage=False)],
+    mc=[dict(module="WriteBack", cfg="MC_WriteBack_q.cfg", tiers=("quick",)),
+        dict(module="WriteBack", cfg="MC_WriteBack_ns2_q.cfg", tiers=("quick",)),
+        dict(module="WriteBack", cfg="MC_WriteBack.cfg", tiers=("thorough",), allow_dead=("FSxNext",)),
+        dict(module="WriteBack", cfg="MC_WriteBack_ns2.cfg", tiers=("thorough",),
+             allow_dead=("HPatch", "Transfer", "Refresh", "Restart")),
+        dict(module="WriteBack", cfg="MC_WriteBack_thorough.cfg", tiers=("thorough",), timeout=2400, allow_dead=("FSxNext",)),
+        dict(module="WriteBack", cfg="MC_WriteBack_live.cfg", tiers=("thorough",), timeout=1200, coverage=False)],
     trace=dict(module="WriteBackTrace", cfg="WriteBackTrace.cfg"),
     isolate=lambda head: (head.get("cfg") or {}).get("kind") in ("f31a", "f31b"),
     nontrivial=_c31_nontrivial,
